@@ -20,6 +20,7 @@ import (
 	"verifharness/engines/c13"
 	"verifharness/engines/c14"
 	"verifharness/engines/c15"
+	"verifharness/engines/c16"
 	"verifharness/engines/pipe"
 	"verifharness/gen"
 )
@@ -38,6 +39,7 @@ var engines = map[string]func(*gen.Ctx) error{
 	"c13": c13.Run,
 	"c14": c14.Run,
 	"c15": c15.Run,
+	"c16": c16.Run,
 }
 
 func main() {
